@@ -17,7 +17,7 @@
 (* This module also enumerates the scenarios (Init / Emit) with their feature predicates.               *)
 EXTENDS Lattice, TLC, Json, Randomization
 
-CONSTANTS Fam,     \* "quad" | "cubic" | "arc" | "chain"
+CONSTANTS Fam,     \* "quad" | "cubic" | "arc" | "chain" | "cubic1i"
           N,       \* lattice 0..N for control points
           Num      \* random subset size (0 = all)
 
@@ -76,6 +76,11 @@ ChainBs(l) == { << l, <<l[1] + 25, l[2] + 25>>, <<l[1] + 50, l[2]>> >>,
                 << l, <<l[1] + 10, l[2] + 20>>, <<l[1] + 30, l[2] + 30>>, <<l[1] + 50, l[2] + 30>> >> }
 Chains == {[type |-> "chain", ca |-> a, cb |-> b] : a \in ChainAs, b \in UNION {ChainBs(l) : l \in ChainLs}}
 
+\* ---- cubics with one inflection point close to the start (p0, p1, p2 almost collinear, p3 off the line), lattice 0..100, Q = 16;
+\* flattened at t = 1/2, 1/5, 1/10: the flat range around the inflection reaches back to t = 0 but not to t = 1
+OneInfl == {<< <<0,0>>, <<30,0>>, <<60,e>>, p3 >> : e \in {-1, -2, 1}, p3 \in {<<100,50>>, <<100,-50>>, <<90,60>>}}
+           \cup {<< <<10,10>>, <<10,40>>, <<x,70>>, <<60,100>> >> : x \in {9, 8, 11}}
+
 \* ---- scenario features ----------------------------------------------------------------------------------------
 \* control point collinear with, and outside, the end points (the curve runs past an end and comes back)
 QuadCollinearOvershoot(p) == /\ Cross(p[1], p[3], p[2]) = 0 /\ p[1] # p[2] /\ p[3] # p[2]
@@ -90,6 +95,7 @@ CubeCollinear(p) == Cross(p[1], p[4], p[2]) = 0 /\ Cross(p[1], p[4], p[3]) = 0 /
 Features == CASE cv.type = "quad"  -> [overshoot |-> QuadCollinearOvershoot(cv.pts), startend |-> cv.pts[1] = cv.pts[3], collinear |-> Cross(cv.pts[1], cv.pts[3], cv.pts[2]) = 0, chordrx |-> FALSE, fold |-> Fold(cv.pts)]
               [] cv.type = "cubic" -> [overshoot |-> FALSE, startend |-> cv.pts[1] = cv.pts[4], collinear |-> CubeCollinear(cv.pts), chordrx |-> FALSE, fold |-> Fold(cv.pts)]
               [] cv.type = "arc"   -> [overshoot |-> FALSE, startend |-> FALSE, collinear |-> FALSE, chordrx |-> cv.shape = "chordrx", fold |-> FALSE]
+              [] cv.type = "bigcubic" -> [overshoot |-> FALSE, startend |-> FALSE, collinear |-> FALSE, chordrx |-> FALSE, fold |-> Fold(cv.pts)]
               [] cv.type = "chain" -> [overshoot |-> FALSE, startend |-> FALSE, collinear |-> FALSE, chordrx |-> FALSE, fold |-> Fold(cv.ca) \/ Fold(cv.cb)]
 
 \* ---- enumeration ----------------------------------------------------------------------------------------------------
@@ -98,14 +104,20 @@ Ctl(n) == IF Num = 0 THEN [1..n -> Pt] ELSE RandomSubset(Num, [1..n -> Pt])
 Arcs == {[type |-> "arc", shape |-> s, a |-> a, n |-> n, ccw |-> w] : s \in {"circle", "ellipse", "ellipse90"}, a \in 0..35, n \in 1..35, w \in BOOLEAN}
 \* chord = rx, horizontal, rotation 0 (60 degree arcs): end points are not integer circle points; both directions
 ChordRx == {[type |-> "arc", shape |-> "chordrx", a |-> 0, n |-> 1, ccw |-> w] : w \in BOOLEAN}
+           \* the other side of ellipseToCenter's half-turn shortcut (|x2-x1| = 2 rx, y1 = y2, phi = 0): a horizontal chord of
+           \* length 2 ry on the unrotated ellipse rx = 195, ry = 65 (a flat arc of 38.9 degrees, not a half turn)
+           \cup {[type |-> "arc", shape |-> "chord2ry", a |-> 0, n |-> 1, ccw |-> w] : w \in BOOLEAN}
 NotAPoint(p) == \E i \in 2..Len(p) : p[i] # p[1]            \* a curve whose control points all coincide is dropped by the builder
 Choice == CASE Fam = "quad"  -> {[type |-> "quad", pts |-> p] : p \in {x \in Ctl(3) : NotAPoint(x)}}
             [] Fam = "cubic" -> {[type |-> "cubic", pts |-> p] : p \in {x \in Ctl(4) : NotAPoint(x)}}
             [] Fam = "arc"   -> (IF Num = 0 THEN Arcs ELSE RandomSubset(Num, Arcs)) \cup ChordRx
             [] Fam = "chain" -> Chains
+            [] Fam = "cubic1i" -> {[type |-> "bigcubic", pts |-> p] : p \in OneInfl}
 Init == cv \in Choice /\ done = FALSE
 \* geometry of an arc for the harness (lattice units, centre at the origin; chordrx: a horizontal chord of length rx)
-ArcGeom(c) == IF c.shape = "chordrx"
+ArcGeom(c) == IF c.shape = "chord2ry"
+              THEN [s |-> IF c.ccw THEN <<0, 0>> ELSE <<2 * R, 0>>, e |-> IF c.ccw THEN <<2 * R, 0>> ELSE <<0, 0>>, rx |-> 3 * R, ry |-> R, rot |-> 0, large |-> FALSE, sweep |-> c.ccw]
+              ELSE IF c.shape = "chordrx"
               THEN [s |-> IF c.ccw THEN <<0, 0>> ELSE <<R, 0>>, e |-> IF c.ccw THEN <<R, 0>> ELSE <<0, 0>>, rx |-> R, ry |-> R, rot |-> 0, large |-> FALSE, sweep |-> c.ccw]
               ELSE LET w == ArcWPu(c) IN
                    [s |-> w[1], e |-> w[Len(w)], rx |-> IF c.shape = "circle" THEN R ELSE 2 * R, ry |-> R,
@@ -128,7 +140,9 @@ CurveLaws ==
       [] cv.type = "arc" ->
             /\ \A i \in 0..35 : LET a == CirclePt(i) b == CirclePt((i + 1) % 36) IN
                   a[1] * a[1] + a[2] * a[2] = R * R /\ a[1] * b[2] - a[2] * b[1] > 0
-            /\ cv.shape # "chordrx" => LET w == ArcWPu(cv) IN Len(w) = cv.n + 1 /\ (ArcLarge(cv) <=> cv.n > 18)
+            /\ cv.shape \notin {"chordrx", "chord2ry"} => LET w == ArcWPu(cv) IN Len(w) = cv.n + 1 /\ (ArcLarge(cv) <=> cv.n > 18)
+      [] cv.type = "bigcubic" -> LET p == cv.pts w == BezWP(p, QCH) IN
+            w[1] = <<QCH * p[1][1], QCH * p[1][2]>> /\ w[17] = <<QCH * p[4][1], QCH * p[4][2]>> /\ ~Fold(p)
       [] cv.type = "chain" -> LET w == ChainWP(cv) a == cv.ca b == cv.cb IN
             /\ w[1] = <<QCH * a[1][1], QCH * a[1][2]>> /\ w[Len(w)] = <<QCH * b[Len(b)][1], QCH * b[Len(b)][2]>>
             /\ \E j \in 1..(Len(w) - 1) : w[j] = <<QCH * a[Len(a)][1], QCH * a[Len(a)][2]>> /\ w[j + 1] = <<QCH * b[1][1], QCH * b[1][2]>>
